@@ -9,6 +9,7 @@ import Fpdec.Model.Threads
 import Fpdec.Spec.Arith
 import Fpdec.Spec.Text
 import Fpdec.Spec.Float
+import Fpdec.Std
 
 /-!
 # `fpmodel` — line-protocol driver for the executable model and spec
@@ -20,7 +21,7 @@ Spec column: alternatives separated by `|`; `panic:ovf` = overflow-signal panic 
 (the request only ties the model to the code).
 -/
 
-open Fpdec Fpdec.Model
+open Fpdec Fpdec.Model Fpdec.Std
 
 def hexVal (c : Char) : Nat :=
   if '0' ≤ c ∧ c ≤ '9' then c.toNat - 48
@@ -219,32 +220,20 @@ def parseFmtSpec (toks : List String) : FmtSpec :=
       prec := if prec = "-" then none else some (parseNat prec) }
   | _ => {}
 
-/-- spec of `Display` with flags: digits from `Spec.render` of the rounded value, std padding rule -/
-def specDisplay (tm : Mode) (f : FmtSpec) (a : Int) (p : Nat) : List Nat :=
-  let prec := match f.prec with | some pr => min pr 18 | none => p
-  let c : Int := if prec ≥ p then a * 10 ^ (prec - p) else Spec.specRound tm a (10 ^ (p - prec))
-  let body := Spec.render c.natAbs prec
-  Model.padIntegral f (decide (a ≥ 0)) body
+def specDisplay (tm : Mode) (f : FmtSpec) (a : Int) (p : Nat) : List Nat := Spec.displaySpec tm f a p
 
 def showFloatErr : FloatErr → String
   | .infinite => "InfiniteValue" | .nan => "NotANumber" | .overflow => "InternalOverflow"
 
 def specFromFloat (f : Spec.FloatFmt) (bits : Nat) : String :=
-  let be := (bits >>> f.fracBits) % 2 ^ f.expBits
-  let frac := bits % 2 ^ f.fracBits
-  let neg := (bits >>> (f.bits - 1)) % 2 = 1
-  if be = 2 ^ f.expBits - 1 then (if frac = 0 then "err InfiniteValue" else "err NotANumber") else
-  let (num, den) := Spec.decodeBits f (bits % 2 ^ (f.bits - 1))
-  let n : Int := if neg then -(num : Int) else num
-  let r := Spec.specRound .heven (n * 10 ^ 18) den
-  let (c, k) := Spec.normalizeSpec 19 r 18
-  if c = -(2 : Int) ^ 127 then s!"ok {c} {k}|err InternalOverflow"
-  else if Spec.fits c then s!"ok {c} {k}"
-  else "err InternalOverflow"
+  match Spec.fromFloat f bits with
+  | .infinite => "err InfiniteValue"
+  | .nan => "err NotANumber"
+  | .overflow => "err InternalOverflow"
+  | .val c k => s!"ok {c} {k}"
+  | .valOrOvf c k => s!"ok {c} {k}|err InternalOverflow"
 
-def specIntoFloat (f : Spec.FloatFmt) (a : Int) (p : Nat) : String :=
-  if a = 0 then "0" else
-  toString (Spec.rneBits f a.natAbs (10 ^ p) ||| ((if a < 0 then 1 else 0) <<< (f.bits - 1)))
+def specIntoFloat (f : Spec.FloatFmt) (a : Int) (p : Nat) : String := toString (Spec.intoFloat f a p)
 
 def showObs : ThreadObs → String
   | .none => "-"
